@@ -1,5 +1,5 @@
 (* Proofs about the model of signing.go (Sign/Model.v) under an ideal signature scheme. *)
-From Verif Require Import Lib.Bytes Json.Ast Json.Parse Json.Print Sign.Base64 Sign.Base64Facts Sign.Model.
+From Verif Require Import Lib.Bytes Json.Ast Json.Parse Json.Print Sign.Base64 Sign.Base64Facts Sign.Model Fed.Utf8C13.
 Open Scope N_scope.
 
 (* ------------------------------------------------------------------------------------ *)
@@ -124,6 +124,20 @@ Proof.
   { unfold strip_members, unsigned_part. simpl. rewrite is_meta_sig. simpl.
     destruct (assoc_last k_unsigned m); simpl; [rewrite is_meta_uns|]; reflexivity. }
   rewrite E. apply app_nil_r.
+Qed.
+
+(* no member name other than signatures / unsigned occurs twice (stated the way it is used:
+   dropping all but the last of each name changes nothing); follows from NoDup, see
+   nodup_no_repeats at the end *)
+Definition no_repeats (m : list (bytes * json)) : Prop :=
+  dedup_last (strip_members m) = strip_members m.
+
+Lemma verified_signed_obj m sm :
+  verified_part (signed_obj m sm) = JObj (dedup_last (strip_members m)).
+Proof.
+  pose proof (strip_signed_obj m sm) as X. unfold signed_obj, strip in X.
+  apply (f_equal (fun j => match j with JObj l => l | _ => [] end)) in X.
+  unfold signed_obj, verified_part. rewrite X. reflexivity.
 Qed.
 
 Lemma signed_obj_signatures m sm :
@@ -390,7 +404,7 @@ Section Scheme.
   Lemma verify_value_spec name kid p v :
     verify_value name kid p v =
     match sig_at name kid v with
-    | Some s => sig_size_ok s && pk_size_ok p && verify p (canon_print (strip v)) s
+    | Some s => sig_size_ok s && pk_size_ok p && verify p (canon_print (verified_part v)) s
     | None => false
     end.
   Proof.
@@ -422,22 +436,23 @@ Section Scheme.
   Hypothesis IS : ideal_sig pub sign verify sig_size_ok pk_size_ok.
 
   Lemma verify_signed_own name kid k m sm :
-    sigmap_wf sm ->
+    no_repeats m -> sigmap_wf sm ->
     verify_value name kid (pub k)
       (signed_obj m (merge_sig name kid (sign k (canon_print (JObj (strip_members m)))) sm)) = true.
   Proof.
-    intro W. rewrite verify_value_spec, sig_at_signed_obj.
-    - rewrite lookup_merge_same, strip_signed_obj.
+    intros NR W. rewrite verify_value_spec, sig_at_signed_obj.
+    - rewrite lookup_merge_same, verified_signed_obj, NR.
       rewrite (sig_size _ _ _ _ _ IS), (pk_size _ _ _ _ _ IS), (sig_complete _ _ _ _ _ IS). reflexivity.
     - apply merge_sig_wf; [exact W|apply (sig_bytes _ _ _ _ _ IS)].
   Qed.
 
   (* completeness: what SignJSON returns verifies under the signer's name, key ID and key *)
   Theorem sign_then_verify_value name kid k m o :
+    no_repeats m ->
     sign_value name kid k (JObj m) = Some o -> verify_value name kid (pub k) o = true.
   Proof.
-    rewrite sign_value_obj. destruct (sigs_of m) as [sm|] eqn:S; [|discriminate].
-    intro H. inversion H; subst. apply verify_signed_own. exact (sigs_of_wf _ _ S).
+    intro NR. rewrite sign_value_obj. destruct (sigs_of m) as [sm|] eqn:S; [|discriminate].
+    intro H. inversion H; subst. apply verify_signed_own; [exact NR|exact (sigs_of_wf _ _ S)].
   Qed.
 
   (* signing as (name, kid) changes nobody else's verdict, for any presented public key *)
@@ -447,7 +462,7 @@ Section Scheme.
   Proof.
     rewrite sign_value_obj. destruct (sigs_of m) as [sm|] eqn:S; [|discriminate].
     intros H N. inversion H; subst.
-    rewrite !verify_value_spec, sig_at_signed_obj, strip_signed_obj.
+    rewrite !verify_value_spec, sig_at_signed_obj, verified_signed_obj.
     - rewrite (lookup_merge_other _ _ _ _ _ _ N), (sig_at_sigs_of _ _ _ _ S). reflexivity.
     - apply merge_sig_wf; [exact (sigs_of_wf _ _ S)|apply (sig_bytes _ _ _ _ _ IS)].
   Qed.
@@ -505,7 +520,7 @@ Section Scheme.
     strip_members m1 = strip_members m2 ->
     verify_value name kid p (JObj m1) = verify_value name kid p (JObj m2).
   Proof.
-    intros H1 H2. rewrite !verify_value_spec. unfold sig_at, strip. rewrite H1, H2. reflexivity.
+    intros H1 H2. rewrite !verify_value_spec. unfold sig_at, verified_part. rewrite H1, H2. reflexivity.
   Qed.
 
   (* what SignJSON keeps *)
@@ -538,7 +553,7 @@ Section Scheme.
      public key, over the canonical form of exactly this signed part *)
   Theorem verify_accepts_only_genuine name kid p v :
     verify_value name kid p v = true ->
-    exists k s, sig_at name kid v = Some s /\ p = pub k /\ s = sign k (canon_print (strip v)).
+    exists k s, sig_at name kid v = Some s /\ p = pub k /\ s = sign k (canon_print (verified_part v)).
   Proof.
     rewrite verify_value_spec. destruct (sig_at name kid v) as [s|]; [|discriminate].
     intro H. apply andb_true_iff in H as [_ H].
@@ -549,7 +564,7 @@ Section Scheme.
   (* a signature by k over one signed part is refused over any other one and under any other key *)
   Theorem verify_honest_signature name kid p k c v :
     sig_at name kid v = Some (sign k c) ->
-    verify_value name kid p v = true -> p = pub k /\ canon_print (strip v) = c.
+    verify_value name kid p v = true -> p = pub k /\ canon_print (verified_part v) = c.
   Proof.
     intros S H. destruct (verify_accepts_only_genuine _ _ _ _ H) as [k' [s [S' [-> E]]]].
     rewrite S in S'. injection S' as S'. rewrite <- S' in E.
@@ -642,11 +657,12 @@ Qed.
   Proof. rewrite sign_value_obj. destruct (sigs_of m); split; congruence. Qed.
 
   Lemma more_signers_verify name kid k m o more :
+    no_repeats m ->
     sign_value name kid k (JObj m) = Some o ->
     Forall (fun s : signer => (fst (fst s), snd (fst s)) <> (name, kid)) more ->
     exists o', sign_all more o = Some o' /\ verify_value name kid (pub k) o' = true.
   Proof.
-    intros S F.
+    intros NR S F.
     destruct (sign_value_result_is_object _ _ _ _ _ S) as [m' [-> [sm Sm]]].
     destruct (sign_all_total more m' sm Sm) as [o' A].
     exists o'. split; [exact A|].
@@ -655,6 +671,7 @@ Qed.
   Qed.
 
   Lemma unsigned_change_verify name kid k m m1 :
+    no_repeats m ->
     sign_value name kid k (JObj m) = Some (JObj m1) ->
     (forall u, verify_value name kid (pub k) (jset k_unsigned u (JObj m1)) = true) /\
     verify_value name kid (pub k) (jdel k_unsigned (JObj m1)) = true /\
@@ -662,7 +679,7 @@ Qed.
                 strip_members m2 = strip_members m1 ->
                 verify_value name kid (pub k) (JObj m2) = true).
   Proof.
-    intro S.
+    intros NR S.
     assert (G : forall m2, assoc_last k_signatures m2 = assoc_last k_signatures m1 ->
                 strip_members m2 = strip_members m1 ->
                 verify_value name kid (pub k) (JObj m2) = true).
@@ -699,7 +716,7 @@ Qed.
   Lemma tamper_canonical name kid k m o v' p :
     sign_value name kid k (JObj m) = Some o ->
     sig_at name kid v' = sig_at name kid o ->
-    canon_print (strip v') <> canon_print (strip (JObj m)) ->
+    canon_print (verified_part v') <> canon_print (strip (JObj m)) ->
     verify_value name kid p v' = false.
   Proof.
     intros S A N.
@@ -722,12 +739,44 @@ Qed.
   (* the text-level SignJSON is parse, sign the value, print canonically *)
   Lemma sign_json_unfold name kid k t st :
     Model.sign_json key sign name kid k t = Some st <->
+    utf8_valid t = true /\
     exists v o, parse_json t = Some v /\ sign_value name kid k v = Some o /\ st = canon_print o.
   Proof.
     unfold Model.sign_json. split.
-    - destruct (parse_json t) as [v|]; [|discriminate].
+    - destruct (utf8_valid t); [|discriminate]. simpl.
+      destruct (parse_json t) as [v|]; [|discriminate].
       destruct (Model.sign_value key sign name kid k v) as [o|] eqn:E; [|discriminate].
-      intro H. inversion H. exists v, o. repeat split. exact E.
-    - intros [v [o [P [S ->]]]]. rewrite P, S. reflexivity.
+      intro H. inversion H. split; [reflexivity|]. exists v, o. repeat split. exact E.
+    - intros [U [v [o [P [S ->]]]]]. rewrite U, P, S. reflexivity.
+  Qed.
+
+  (* distinct member names: nothing is repeated *)
+  Lemma assoc_last_notin {A} k (m : list (bytes * A)) : ~ In k (map fst m) -> assoc_last k m = None.
+  Proof.
+    intro N. destruct (assoc_last k m) eqn:E; [|reflexivity].
+    exfalso. apply N. eapply assoc_last_in_keys. exact E.
+  Qed.
+
+  Lemma dedup_last_nodup {A} (l : list (bytes * A)) : NoDup (map fst l) -> dedup_last l = l.
+  Proof.
+    induction l as [|[k v] l IH]; intro N; [reflexivity|].
+    simpl in N. inversion N as [|? ? Hk N']; subst. simpl.
+    rewrite (assoc_last_notin k l Hk), (IH N'). reflexivity.
+  Qed.
+
+  Lemma nodup_filter_keys {A} (P : bytes * A -> bool) (l : list (bytes * A)) :
+    NoDup (map fst l) -> NoDup (map fst (filter P l)).
+  Proof.
+    induction l as [|kv l IH]; intro N; [constructor|].
+    simpl in N. inversion N as [|? ? Hk N']; subst. simpl.
+    destruct (P kv); [|exact (IH N')].
+    simpl. constructor; [|exact (IH N')].
+    intro H. apply Hk. apply in_map_iff in H as [x [E Hx]]. apply filter_In in Hx as [Hx _].
+    apply in_map_iff. exists x. split; assumption.
+  Qed.
+
+  Lemma nodup_no_repeats m : NoDup (map fst m) -> no_repeats m.
+  Proof.
+    intro N. unfold no_repeats. apply dedup_last_nodup. unfold strip_members. apply nodup_filter_keys. exact N.
   Qed.
 End Scheme.
